@@ -223,14 +223,14 @@ PROPS["C03"]["outside"] = ["regexp bounds", "more than two conjuncts besides the
 
 PROPS["C01"] = {
     "level": "model_checking",
-    "claim": "Bounded symbolic model checking of order independence for the scalar fragment on the REAL evaluator: for every pair of conjuncts (atoms, basic types, bounds) and an arbitrary probe atom, unifying them in declaration order, reversed, interleaved with the probe, with a duplicated conjunct and with an extra top gives the same success/failure and the same value; plus the order-free kernels (arc-type meet, default-mode combination, symmetry of bound simplification) are commutative, associative and idempotent.",
-    "note": "Trusted: go/ssa, the executor, z3, the decimal contract model. Outside (most of the property): field/declaration permutation in structs, file order, structure sharing, closedness, cycles, disjunction order - anything that needs struct values or references.",
+    "claim": "Bounded symbolic model checking of order independence on the REAL evaluator (Vertex.Finalize: scheduler, conjunct insertion, insertArc, reference resolution, cycle handling). Scalar fragment: for every pair of conjuncts (atoms, basic types, bounds) and an arbitrary probe atom, unifying them in declaration order, reversed, interleaved with the probe, with a duplicated conjunct and with an extra top gives the same success/failure and the same value; triples of number types and bounds have the same error status in every explored order and fail only if unsatisfiable. Struct fragment: two struct literals (built as ADT) with fields a, b holding symbolic integer atoms, bounds on symbolic integers, int, or references to a sibling field (cycles included), evaluated as S1 & S2, as S2' & S1' with each literal's declarations reversed, and as one literal holding all declarations: the same fields exist, with the same error code, and admit the same integers for an arbitrary probe. Plus the order-free kernels (arc-type meet, default-mode combination, symmetry of bound simplification) are commutative, associative and idempotent.",
+    "note": "Trusted: go/ssa, the executor, z3, the decimal contract model. Outside: nested structs, optional/required fields, definitions and closedness, embeddings, comprehensions, lists, disjunction order, file order, structure sharing beyond what two flat literals trigger, the compiler (literals are built as ADT).",
     "technique": "bounded symbolic execution of adt.Vertex.Finalize (the real scheduler and conjunct insertion) on permuted/duplicated symbolic scalar conjuncts; outcomes compared by z3",
     "bounds": {
-        "quick": "conjunct pairs over strings/bytes (<= 1 byte) with types and bounds, probe <= 2 bytes: orders (c1,c2,p), (p,c2,c1), (c1,p,c2,c1,top); triples int & c2 & c3 with c2,c3 a number type or a bound (< <= > >= !=) on a one-digit int or one-digit half-unit float (d*10^-1), in 3 orders (identity, reversed, rotated); arc types: all values; default modes: all values",
-        "thorough": "conjunct pairs over the full scalar domain (null, bool, numbers, strings, bytes; all basic types; all bounds); triples with all three conjuncts arbitrary (type or bound) in 3 orders",
+        "quick": "conjunct pairs over strings/bytes (<= 1 byte) with types and bounds, probe <= 2 bytes: orders (c1,c2,p), (p,c2,c1), (c1,p,c2,c1,top); triples int & c2 & c3 with c2,c3 a number type or a bound (< <= > >= !=) on a one-digit int or one-digit half-unit float (d*10^-1), in 3 orders (identity, reversed, rotated); two struct literals over fields a, b with <= 2 and 1 declarations, values: integer in 0..3, bound (< or >=) on such an integer, int, sibling reference; probe in 0..3; arc types: all values; default modes: all values",
+        "thorough": "conjunct pairs over the full scalar domain (null, bool, numbers, strings, bytes; all basic types; all bounds); triples with all three conjuncts arbitrary (type or bound) in 3 orders; struct literals with <= 2 declarations each",
     },
-    "outside": ["structs, lists, references, comprehensions, disjunctions, closedness, cycles, files"],
+    "outside": ["nested structs, lists, comprehensions, disjunction order, closedness, optional/required fields, embeddings, files"],
     "assumptions": APD_ASSUMPTIONS,
     "validate": [{"kind": "apdgrid"}],
     "runs": [
@@ -249,6 +249,15 @@ PROPS["C01"] = {
                           {"name": "verifHarnessUnifyOrder3", "params": {"DIGITS": 1, "EXP": 1, "PERMS": 3, "FIRSTINT": 1}}],
                 "thorough": [{"name": "verifHarnessUnifyExact", "params": {"DOMAIN": 2, "DIGITS": 1, "EXP": 0, "STRLEN": 1, "NCONJ": 2}},
                              {"name": "verifHarnessUnifyOrder3", "params": {"DIGITS": 1, "EXP": 1, "PERMS": 3}}],
+            },
+        },
+        {
+            "pkg": "./internal/core/adt",
+            "harness": ["adt/common.go", "adt/disjunct.go", "adt/structs.go"],
+            "apdmodel": True,
+            "entries": {
+                "quick": [{"name": "verifHarnessStructOrder", "params": {"DECLS": 2, "DECLS1": 1, "OPS": 2}}],
+                "thorough": [{"name": "verifHarnessStructOrder", "params": {"DECLS": 2, "OPS": 2}}],
             },
         },
     ],
@@ -415,14 +424,14 @@ PROPS["C18"] = {
 
 PROPS["C04"] = {
     "level": "model_checking",
-    "claim": "Bounded symbolic model checking of the REAL evaluator's disjunction machinery (scheduleDisjunction, crossProduct, doDisjunct with overlay cloning, appendDisjunct duplicate elimination, finalizeDisjunctions, Vertex.Default) against the spec's value/default-pair algebra: for every tuple of flat disjunctions of integer atoms with arbitrary default marks, unified with &, the set of atoms the result accepts is the intersection of the disjunctions' atom sets; the defaults the evaluator reports are exactly the set given by M0-M3, D0-D2, U0-U2 including the rule that a marked disjunction all of whose marked disjuncts are eliminated counts as unmarked; Default() resolves to an atom exactly when the pair has a unique default (or no default and a unique value) and then to that atom; ambiguity is never resolved silently; bottom arises only when no atom is common. Atoms are symbolic integers in 0..3, so which disjuncts coincide or conflict is decided by the solver.",
-    "note": "Trusted: go/ssa, the executor, z3, the decimal contract model. Outside: nested marked disjunctions (excluded by the property), struct disjuncts, disjuncts that are types or bounds, priorities/layers, cycles, disjunctions reached through references.",
+    "claim": "Bounded symbolic model checking of the REAL evaluator's disjunction machinery (scheduleDisjunction, crossProduct, doDisjunct with overlay cloning, appendDisjunct duplicate elimination, finalizeDisjunctions, Vertex.Default) against the spec's value/default-pair algebra: for every tuple of flat disjunctions of integer atoms with arbitrary default marks, unified with &, the set of atoms the result accepts is the intersection of the disjunctions' atom sets; the defaults the evaluator reports are exactly the set given by M0-M3, D0-D2, U0-U2 including the rule that a marked disjunction all of whose marked disjuncts are eliminated counts as unmarked; Default() resolves to an atom exactly when the pair has a unique default (or no default and a unique value) and then to that atom; ambiguity is never resolved silently; bottom arises only when no atom is common. Atoms are symbolic integers in 0..3, so which disjuncts coincide or conflict is decided by the solver. For unmarked disjunctions whose disjuncts are atoms or numeric bounds (< <= > >= on a symbolic integer), the result admits an arbitrary integer probe exactly when every disjunction has a disjunct admitting it (no disjunct is lost to de-duplication), and it resolves to a concrete value only if that is the only member.",
+    "note": "Trusted: go/ssa, the executor, z3, the decimal contract model. Outside: nested marked disjunctions (excluded by the property), struct disjuncts, disjuncts that are types, marked bound disjuncts, priorities/layers, cycles, disjunctions reached through references.",
     "technique": "bounded symbolic execution of adt.Vertex.Finalize / Vertex.Default on DisjunctionExpr conjuncts with symbolic integer atoms (SMT Int) and enumerated marks; pointwise comparison with the spec oracle for an arbitrary probe atom, decided by z3",
     "bounds": {
-        "quick": "2 disjunctions of <= 2 atoms each, atoms arbitrary in 0..3, every marking",
-        "thorough": "2 disjunctions of <= 3 atoms; 3 disjunctions of <= 2 atoms",
+        "quick": "2 disjunctions, the first of <= 3 and the second of <= 2 atoms, atoms arbitrary in 0..3, every marking; 2 unmarked disjunctions of <= 2 terms each, a term an atom or a bound (< or >) on an integer in 0..3, probe in 0..3",
+        "thorough": "2 disjunctions of <= 3 atoms; 3 disjunctions of <= 2 atoms; bound terms with < <= > >=; bound terms (< >) together with the conjunct int",
     },
-    "outside": ["nested marked disjunctions", "struct/type/bound disjuncts", "layers and priorities"],
+    "outside": ["nested marked disjunctions", "struct/type disjuncts, marked bound disjuncts", "layers and priorities"],
     "assumptions": APD_ASSUMPTIONS,
     "runs": [
         {
@@ -430,10 +439,13 @@ PROPS["C04"] = {
             "harness": ["adt/common.go", "adt/disjunct.go"],
             "apdmodel": True,
             "entries": {
-                "quick": [{"name": "verifHarnessDisjunctionDefaults", "params": {"TERMS": 2, "NDISJ": 2}}],
+                "quick": [{"name": "verifHarnessDisjunctionDefaults", "params": {"TERMS": 2, "NDISJ": 2, "TERMS0": 3}},
+                          {"name": "verifHarnessDisjunctionBounds", "params": {"TERMS": 2, "NDISJ": 2, "OPSET": 1}}],
                 "thorough": [
                     {"name": "verifHarnessDisjunctionDefaults", "params": {"TERMS": 3, "NDISJ": 2}},
                     {"name": "verifHarnessDisjunctionDefaults", "params": {"TERMS": 2, "NDISJ": 3}},
+                    {"name": "verifHarnessDisjunctionBounds", "params": {"TERMS": 2, "NDISJ": 2}},
+                    {"name": "verifHarnessDisjunctionBounds", "params": {"TERMS": 2, "NDISJ": 2, "OPSET": 1, "WITHINT": 1}},
                 ],
             },
         },
